@@ -234,7 +234,9 @@ class ConfusionMatrix:
         else:
             weights = np.ones_like(labels, dtype=int)
 
-        matrix = np.zeros((len(classes), len(classes)), dtype=weights.dtype)
+        # Totals are accumulated in the dtype NumPy uses for sums of the weights: a
+        # small integer dtype (e.g., uint8) would overflow.
+        matrix = np.zeros((len(classes), len(classes)), dtype=np.sum(weights[:0]).dtype)
         for label, pred, weight in zip(labels, predictions, weights):
             matrix[idx_map[label]][idx_map[pred]] += weight
 
@@ -293,7 +295,10 @@ class ConfusionMatrix:
             Vectorized binary confusion matrix of shape (..., N, 2, 2).
         """
         dims = self.matrix.shape[:-2]  # Extra dimensions
-        matrix = np.zeros((*dims, self.nb_classes, 2, 2), dtype=self.matrix.dtype)
+        # Row and column sums can overflow a small integer dtype (e.g., uint8), so we use
+        # the dtype NumPy uses for sums of the matrix entries.
+        dtype = np.sum(self.matrix[..., :0, :0], axis=(-1, -2)).dtype
+        matrix = np.zeros((*dims, self.nb_classes, 2, 2), dtype=dtype)
         for j in range(self.nb_classes):
             matrix[..., j, 0, 0] = self.matrix[..., j, j]
             matrix[..., j, 0, 1] = (
